@@ -65,7 +65,7 @@ fn is_nesting_guard(msg: &str) -> bool {
 /// Could this (program, input) really reach nesting >= 256? (sound over-approximation: only then is
 /// the documented `nesting depth exceeds limit of N` guard panic tolerated)
 fn deep_capable(text: &str, input_depth: usize, nest: usize) -> bool {
-    if input_depth >= 200 || nest >= 100 {
+    if input_depth >= 200 || nest >= 100 || text.bytes().filter(|b| *b == b'[' || *b == b'{').count() >= 100 {
         return true;
     }
     const LOOPS: &[&str] = &["reduce", "foreach", "recurse", "repeat", "while", "until", "range", "limit", "def ", "..", "setpath", "fromjson", "walk", "paths", "getpath", "tostream", "fromstream", "*", "tojson", "flatten", "combinations", "transpose", "input"];
@@ -497,6 +497,18 @@ fn replay_input(v: &Value) -> Option<Fail> {
     let mut prog = jqprog::prog_of(jqprog::E::raw(filter.clone()), true, "replay");
     prog.text = filter;
     let mut st = Stats::default();
+    // abort replays would kill this (parent) process if evaluated in-process: CLI only
+    if v["input"]["cli_only"].as_bool().unwrap_or(false) {
+        if !cli::cli_available() {
+            return None;
+        }
+        let out = run_cli(&prog.text, input)?;
+        let c = cli_crash(&out)?;
+        return Some(Fail::new(
+            format!("C30/cli-abort/{}/{}", c.how, culprit(&prog.text)),
+            json!({"filter": prog.text, "input": input, "exit": out.code, "signal": out.signal, "stderr_tail": out.stderr_str().chars().take(300).collect::<String>()}),
+        ));
+    }
     let cli_too = v["input"]["cli"].as_bool().unwrap_or(false);
     check_prog(&prog, &doc, &mut st, cli_too, &[]).err()
 }
@@ -542,7 +554,7 @@ pub fn run(cx: &mut Ctx) {
     let known_v: Vec<String> = cx.known.iter().filter(|k| k.status == "known").map(|k| k.signature.clone()).collect();
     let known = &known_v;
 
-    for (sub, quick, thorough, max_len, chunk) in [("gen", 8_000u64, 1_000_000u64, 1400usize, 250u64), ("extreme", 4_000, 400_000, 1400, 125), ("deep", 1_500, 100_000, 600, 50), ("soup", 8_000, 600_000, 600, 250), ("mutant", 6_000, 600_000, 600, 250)] {
+    for (sub, quick, thorough, max_len, chunk) in [("gen", 5_000u64, 1_000_000u64, 1400usize, 160u64), ("extreme", 2_500, 400_000, 1400, 80), ("deep", 800, 100_000, 600, 25), ("soup", 5_000, 600_000, 600, 160), ("mutant", 4_000, 600_000, 600, 125)] {
         cx.check_isolated(sub, RULE, Budget { quick, thorough, max_len }, iso(chunk), |u, st| {
             let (p, doc, cli_s) = gen_case(sub, u, cfg, seeds);
             let r = check_prog(&p, &doc, st, cli_s, known);
@@ -561,7 +573,7 @@ pub fn run(cx: &mut Ctx) {
     }
     cli::cleanup();
     sweep_dead_tmp(&cx.root);
-    for (sub, cl, min) in [("gen", "nontrivial", 150), ("gen", "parses", 1000), ("extreme", "nontrivial", 300), ("extreme", "end:error", 100), ("deep", "nesting>=50", 50), ("deep", "parse-error", 50), ("soup", "parse-error", 500), ("mutant", "parses", 300), ("mutant", "parse-error", 300)] {
+    for (sub, cl, min) in [("gen", "nontrivial", 100), ("gen", "parses", 1000), ("extreme", "nontrivial", 200), ("extreme", "end:error", 100), ("deep", "nesting>=50", 50), ("deep", "parse-error", 50), ("soup", "parse-error", 500), ("mutant", "parses", 300), ("mutant", "parse-error", 300)] {
         cx.require_class(sub, cl, min);
     }
 }
